@@ -7,16 +7,92 @@ HERE = os.path.dirname(os.path.dirname(os.path.abspath(__file__)))
 
 FIX_COMMITS = []  # filled from known_findings.txt (informational)
 
+POOL_NOTE = ("Trusts the independent ModelPool/tick model (written from the README and the property statements); phases are built "
+             "(k+1/2) ticks long so the model is deterministic; quantities within 1e-6 GB / 1e-9 relative of a limit may fall on either side; "
+             "an episode ends at its first rejected round.")
+SIM_NOTE = ("Observes run_simulator through recording subclasses of Executor/Scheduler, a workload wrapper and a logging wrapper around "
+            "PipelineRuntimeStatus.transition installed by the harness at run time (no change to /repo); the oracle uses only what was "
+            "recorded at those seams.")
+
 CHECKS = {
+    "C01": dict(
+        technique="exhaustive enumeration of all DAGs on <= 6 nodes + property-based testing (Hypothesis) of simulations with a log/snapshot monitor",
+        text="DAG iteration decided exhaustively for every DAG on 1..6 nodes (two construction styles, repeated iteration) and by Hypothesis up to "
+             "40 nodes; the start-after-parents clause by thousands of generated simulations under all shipped schedulers and a tape-driven custom "
+             "scheduler issuing inadmissible decisions, judged on the ordered log of state changes and on snapshots at both phase boundaries.",
+        note=SIM_NOTE, ref="6 C01"),
+    "C02": dict(
+        technique="exhaustive enumeration of request sequences (depth 4/5, DAGs <= 3 operators) + property-based request tapes and simulations (Hypothesis)",
+        text="All request sequences of length <= 4 (quick) / 5 (thorough) on all 11 DAGs of <= 3 operators and every request from every reachable "
+             "state vector, against an independent transition table; longer generated request tapes on DAGs <= 8; simulation histories under every "
+             "scheduler checked for table conformance, finality of completion and disjoint live containers.",
+        note=SIM_NOTE, ref="6 C02"),
+    "C03": dict(
+        technique="model-based property testing (Hypothesis command tapes): real Executor vs independent ledger model in lock-step",
+        text="Generated command histories (batches at/below/above free resources, legal and illegal suspensions, bad commands) against 1-4 real pools; "
+             "conservation checked from the implementation's own figures after every tick and free figures compared with the model.",
+        note=POOL_NOTE, ref="6 C03"),
+    "C04": dict(
+        technique="model-based property testing (Hypothesis command tapes): per-tick memory vs independent demand model",
+        text="Same machine with fixed/growing memory mixes and allocations around every demand step; usage <= allocation, pool usage <= capacity, "
+             "reported usage == sum of running containers' usage, every kill justified by the model's demand.",
+        note=POOL_NOTE, ref="6 C04"),
     "C05": dict(
         technique="property-based differential testing (Hypothesis): real container vs exact-rational trace predictor",
         text="Generated single-container cases (1-6 operators x 1-3 segments, seven laws, fixed/growing memory, tick rates "
              "1..100000, allocations around every demand step) run in a real ResourcePool; every tick's memory, operator "
-             "states and result must be explained by an independent exact-rational model with boundary sets. Exploration: "
-             "thousands (quick) to hundreds of thousands (thorough) of cases, no exhaustiveness claim.",
+             "states and result must be explained by an independent exact-rational model with boundary sets.",
         note="Trusts the transcription of the four undocumented scaling laws; accepts either side within 1e-9 relative of a "
              "tick/limit boundary as the property itself allows.",
         ref="6 C05"),
+    "C06": dict(
+        technique="property-based testing (Hypothesis) of whole simulations with an independent recount of the statistics",
+        text="Generated simulations (custom DAG schedules, generator runs, generator->CSV->trace runs, all shipped schedulers, empty runs/classes) "
+             "whose SimulatorStats must equal a recount from recorded arrivals, decisions, results and snapshots; an uncontended family checks "
+             "the exact tick count of a lone pipeline against the tick model.",
+        note=SIM_NOTE, ref="6 C06"),
+    "C08": dict(
+        technique="property-based testing (Hypothesis) of the full configuration x workload space with an admissibility monitor",
+        text="Generated valid configurations and DAG workloads through run_simulator for naive, priority, priority-pool, overbook and the starter "
+             "scheduler; no exception, numeric statistics, and every recorded round admissible independently of the executor's own assertions. "
+             "The recorded finding priority-pool-single-op is recognised by its signature only.",
+        note=SIM_NOTE, ref="6 C08"),
+    "C09": dict(
+        technique="model-based property testing (Hypothesis command tapes): container/outcome accounting vs model",
+        text="Pool machine over 1-4 pools with simultaneous completions, kills and suspensions and out-of-range pool numbers; one container per accepted "
+             "assignment, exactly one result in the tick it ends, success/failure shape, accounting identity every tick.",
+        note=POOL_NOTE, ref="6 C09"),
+    "C10": dict(
+        technique="model-based property testing (Hypothesis command tapes): suspend attempts at every point of a container's life",
+        text="Suspend attempts (legal, mid-operator, suspending/suspended/unknown/wrong-pool/duplicate) at tick rates where the write-out is 0->1, 1, 2, many "
+             "ticks, incl. identical containers finishing suspensions in the same tick and several containers of one pipeline; acceptance, duration, "
+             "held allocation, absence of results and hand-back of work compared with the model.",
+        note=POOL_NOTE, ref="6 C10"),
+    "C11": dict(
+        technique="model-based property testing (Hypothesis command tapes) with a validity predicate over the victim set",
+        text="Overcommitted pools with 2-8 concurrent containers crossing capacity; the failed results of each tick are validated (needed, descending "
+             "score, minimal, sufficient, never finished or zero-usage containers) against the model's per-container demand.",
+        note=POOL_NOTE, ref="6 C11"),
+    "C12": dict(
+        technique="property-based testing (Hypothesis) of simulations with a per-round monitor (priority order, FIFO, work conservation, preemption)",
+        text="Generated priority / priority-pool simulations incl. a preemption profile (long multi-operator containers, query bursts, 1-3 tick suspensions); "
+             "every recorded round judged from the pre-round snapshot, the decisions and the post-scheduler operator states.",
+        note=SIM_NOTE + " Liveness wording is decided in its bounded per-round form.", ref="6 C12"),
+    "C16": dict(
+        technique="property-based testing (Hypothesis) of priority-pool simulations with a per-assignment monitor",
+        text="Generated two-pool simulations with OOM and repeated doubling on both pools; pool/priority of every assignment, empty suspensions, retry shape "
+             "and abandonment threshold checked on the recorded decisions and results.",
+        note=SIM_NOTE, ref="6 C16"),
+    "C17": dict(
+        technique="property-based testing (Hypothesis) of naive-scheduler simulations with a per-round monitor",
+        text="Generated naive simulations (1-4 pools, DAGs, both modes, failures): one container per pool per round with exactly the free CPU/RAM, FIFO first "
+             "containers, no suspension, nothing after a failure, one ready operator in single-operator mode.",
+        note=SIM_NOTE, ref="6 C17"),
+    "C18": dict(
+        technique="property-based testing (Hypothesis) of overbook simulations with a per-round monitor",
+        text="Generated overbook simulations with overcommit: shape of every assignment, containers <= CPUs, no ready operator beside a free CPU after a "
+             "triggered round, abandonment after three failed containers.",
+        note=SIM_NOTE, ref="6 C18"),
 }
 
 PENDING_REASON = "check not built yet in this revision of the framework (planned, see DESIGN.md section 6)"
